@@ -20,19 +20,19 @@ MANIFEST = dict(
           "strtoll number scanning, string/int/structure printer with all flags, UTF-8 leaves): every RFC 8259 text, described "
           "generatively as a concrete syntax tree with arbitrary white space, every escape spelling and surrogate pairs, parses to "
           "the value it denotes; printed text is such a syntax tree of the same value, hence parses back; the fill pass of the "
-          "unescaper stores exactly the bytes counted by the length pass; with the code-point flag output is ASCII. The models are "
+          "unescaper stores exactly the bytes counted by the length pass; with the code-point flag output is ASCII; the exact-arithmetic model of iwjson_ftoa writes a valid number token rounded half-even at the eighth fraction digit. The models are "
           "tied to the code by a differential run of jbn_from_json / jbn_as_json / _jbl_unescape_json_string / iwstrtod / iwjson_ftoa "
           "against the compiled Lean definitions, and Python's json module is the independent reference parser"),
     note=("trusted: Lean kernel, translator, harness/generator, Python json/Fraction as reference, gcc+ASan/UBSan; modelled not "
-          "verified: the C control flow of the functions named; doubles are opaque bit patterns in the theorems (text<->binary "
-          "conversion of doubles is checked at run time only: executable Float mirror of iwstrtod, exact-arithmetic model of "
-          "iwjson_ftoa; iwstrtod is not correctly rounded: open finding F8); keys containing U+0000 are truncated (open finding F9)"),
+          "verified: the C control flow of the functions named; doubles are opaque bit patterns on the parse side (iwstrtod is an assumption `SdSpec`: consumes exactly a valid token; its "
+          "value is checked at run time only through the executable Float mirror; iwstrtod is not correctly rounded: open finding F8); keys containing U+0000 are truncated (open finding F9)"),
     technique="Lean 4 proof over executable model + differential correspondence (C harness vs compiled Lean driver) + reference parser oracle")
 MODULE = "IwModel.Props.C13"
 THEOREMS = [
     "IwModel.C13.unescape_two_pass", "IwModel.C13.string_spellings", "IwModel.C13.integer_exact",
     "IwModel.C13.parse_render_partial", "IwModel.C13.string_roundtrip", "IwModel.C13.print_valid",
-    "IwModel.C13.print_ascii", "IwModel.C13.parse_print_partial", "IwModel.C13.key_nul_truncated",
+    "IwModel.C13.print_ascii", "IwModel.C13.parse_print_partial", "IwModel.C13.ftoa_number",
+    "IwModel.C13.print_valid_ftoa", "IwModel.C13.parse_print_ftoa_partial", "IwModel.C13.key_nul_truncated",
     "IwModel.C13.utf8_roundtrip", "IwModel.C13.generated_ok",
 ]
 
